@@ -24,3 +24,8 @@ claim('C11',
       note="Trusted: math.lgamma, my golden-section search. Cases with no jointly unmasked entry or no data there are skipped (degenerate). Model entries are positive by construction.",
       technique="property-based testing (Hypothesis) against an explicit Poisson oracle and a brute-force 1-D maximisation",
       design_ref="DESIGN.md 3/C11")
+claim('C14',
+      text="Generated spectra (1-5 dimensions, singleton axes, values across the double range plus nan/inf, arbitrary masks, valid folded masks, labels with spaces, comments) are written and read back in plain and gzip form at precisions 16-20, through the pre-1.3 format and the generic array writer, and pickled at protocols 2-5; every value, mask bit, flag, label and comment is compared.",
+      note="Trusted: the round trip is its own oracle; values must be bit-identical at precision>=17. Labels avoid double quotes/newlines (the format quotes labels); magnitudes are limited to 1e300 as the property states.",
+      technique="property-based testing (Hypothesis) with a round-trip oracle",
+      design_ref="DESIGN.md 3/C14")
